@@ -131,6 +131,8 @@ Online == /\ Is("Online")
                              !.once = IF off THEN {} ELSE @,
                              !.onceLast = IF off THEN [k \in 1..st.c.nkeys |-> -1] ELSE @,
                              !.weak = IF off THEN @ \cup {k \in st.kept : st.last[k] < st.since[k]} ELSE @])
+\* the node's addresses change (the sender compares every record with the addresses current at that instant)
+Addrs == /\ Is("Addrs") /\ Step(Quiet)
 FailSend == /\ Is("FailSend") /\ LET st == Quiet IN Step([st EXCEPT !.failing = TRUE])
 HealSend == /\ Is("HealSend") /\ LET st == Quiet IN Step([st EXCEPT !.failing = FALSE, !.healSince = Ev.ts])
 \* The property promises that work queued at Close is resumed after a restart; it does not promise reprovide
@@ -186,7 +188,7 @@ OpResult == /\ Is("OpResult")
 EndEv == Is("End") /\ Step(CloseBatch(s))
 Stuck == Is("Stuck") /\ Step([s EXCEPT !.viol = @ \cup {<<"C17", "x_wedged_or_crashed">>}])
 
-Next == Send \/ Route \/ GaveUp \/ Merged \/ FailSend \/ HealSend \/ SendFail \/ Start \/ Once \/ Stop \/ Swarm \/ Offline \/ Online \/ Restart \/ Settle \/ OpResult \/ EndEv \/ Stuck
+Next == Send \/ Route \/ GaveUp \/ Merged \/ Addrs \/ FailSend \/ HealSend \/ SendFail \/ Start \/ Once \/ Stop \/ Swarm \/ Offline \/ Online \/ Restart \/ Settle \/ OpResult \/ EndEv \/ Stuck
 TraceSpec == Init /\ [][Next]_vars
 TraceAccepted == TLCGet("distinct") = NLines
 InvC17 == s.viol = {}
